@@ -16,11 +16,13 @@ PROPERTY = "C06"
 RULE = ("cells = interface x sampler x size x #likelihoods x model backing x likelihood Gaussian form; inside a cell "
         "every prior form (16 Gaussian input forms x 3 mean kinds, GMRF orders 0-2) is crossed with two current states and "
         "the complete perturbation basis; non-trivial = sampler accepted the posterior and the linear part is non-zero")
-BOUND = {"quick": "sizes (m,n) in {(3,3),(2,3)} + (3,76) above the sparse-storage switch; 1-2 likelihoods; matrix- and function-backed models; both interfaces + "
+BOUND = {"quick": "sizes (m,n) in {(3,3),(2,3)} + (3,76) above the sparse-storage switch + (30,40) with a GMRF prior (many inner iterations); 1-2 likelihoods "
+                  "of equal and of different sizes; current states: origin, near, far (2^22 x catalogue vector); matrix- and function-backed models; both interfaces + "
                   "5-tuple form; UGLA: 2 sizes x location {0, scalar, vector} x scale {1, 0.25}",
          "thorough": "sizes {(2,3),(3,3),(4,2)}; 1-3 likelihoods; all catalogues of the seed; UGLA with 3 beta values"}
 ASSUMPTIONS = [
-    "inner solver run to convergence (maxit=400, tol=1e-13) - results compared at 1e-7",
+    "inner solver run to convergence (maxit=400, tol=1e-13) - results compared at 1e-7; draws from the far current state "
+    "(norm R ~ 1e7..1e8) are compared with those from the origin at 1e3*tol*R (the stopping rule is relative to the initial residual)",
     "matrix square roots are passed as symmetric roots, for which the R R^T / R^T R conventions coincide "
     "(the convention question is decided in C04/C05)",
     "UGLA: the documentation does not say whether the weights are evaluated at D x_k or D (x_k - location); either "
@@ -71,11 +73,20 @@ def cells(tier, seed):
                         for kd in KINDS:
                             yield {"sampler": "RTO", "iface": iface, "m": m, "n": n, "nlik": nl, "backing": backing,
                                    "lik": [p, kd], "cat": k, "tier": tier}
+                            if nl > 1 and (tier != "quick" or kd in ("dense", "scalar")):
+                                # several likelihoods with DIFFERENT numbers of observations (m, m+1, m-1 ...)
+                                yield {"sampler": "RTO", "iface": iface, "m": m, "n": n, "nlik": nl, "backing": backing,
+                                       "lik": [p, kd], "cat": k, "tier": tier, "msizes": [max(1, m + d) for d in (0, 1, -1)][:nl]}
         # one size above the sparse-storage switch of the Gaussian (dim > 75): dense/vector forms of every parameterisation
         for p in PARAMS:
             for kd in (("dense",) if tier == "quick" else ("dense", "vector", "scalar")):
                 yield {"sampler": "RTO", "iface": iface, "m": 3, "n": 76, "nlik": 1, "backing": "matrix",
                        "lik": ["cov", "scalar"], "prior_only": [p, kd], "cat": k, "tier": tier}
+        # a size at which the inner CG needs many iterations (GMRF prior, 30 observations of 40 unknowns): the current
+        # state (origin / far away) must still not matter
+        for order in ((1,) if tier == "quick" else (1, 2)):
+            yield {"sampler": "RTO", "iface": iface, "m": 30, "n": 40, "nlik": 1, "backing": "matrix",
+                   "lik": ["cov", "scalar"], "prior_only": ["gmrf", order], "cat": k, "tier": tier}
         for (m, n) in sizes:
             for p in PARAMS:
                 yield {"sampler": "RTO5", "iface": "legacy" if iface == "legacy" else "exp", "m": m, "n": n,
@@ -167,9 +178,10 @@ def eval_rto(cell):
     backing = cell.get("backing", "matrix")
     lp, lk = cell["lik"]
     comp = "%s.LinearRTO" % iface
-    As = [refs.full_matrix(m, n, k + 3 * i) for i in range(nl)]
-    ds = [refs.dyadic_vec(m, k + i, scale=0.25) for i in range(nl)]
-    Cls = [base_cov(lk, m, k, salt=i) for i in range(nl)]
+    ms = cell.get("msizes", [m] * nl)
+    As = [refs.full_matrix(ms[i], n, k + 3 * i) for i in range(nl)]
+    ds = [refs.dyadic_vec(ms[i], k + i, scale=0.25) for i in range(nl)]
+    Cls = [base_cov(lk, ms[i], k, salt=i) for i in range(nl)]
     prior_forms = []
     for p in PARAMS:
         for kd in KINDS:
@@ -181,6 +193,8 @@ def eval_rto(cell):
         prior_forms = [("tuple", "sqrtprec", "dense", mk) for mk in ("zero", "vector")]
     if "prior_only" in cell:
         prior_forms = [("gauss", cell["prior_only"][0], cell["prior_only"][1], "vector")]
+        if cell["prior_only"][0] == "gmrf":
+            prior_forms = [("gmrf", cell["prior_only"][1], None, "vector")]
     if cell["tier"] == "quick" and cell["sampler"] == "RTO" and (nl > 1 or backing == "function"):
         # keep the quick product small: the full 48 prior forms are crossed with (1 likelihood, matrix);
         # other cells use one representative per parameterisation + GMRF
@@ -238,7 +252,12 @@ def eval_rto(cell):
         mean_ref = cov_ref @ rhs
         maps = []
         ok_run = True
-        for x0 in (np.zeros(n), refs.dyadic_vec(n, k + 4, scale=0.5))[: (1 if n > 10 else 2)]:
+        # current states: the origin, a nearby state and (cheap sizes and the large size) a state FAR from the posterior
+        # (2^22 times the catalogue vector: a warm start whose norm dwarfs that of the draw)
+        x0s = [np.zeros(n), refs.dyadic_vec(n, k + 4, scale=0.5)] if n <= 10 else [np.zeros(n)]
+        if n > 10 or pf[2] == "dense" or kind == "gmrf":
+            x0s.append(refs.dyadic_vec(n, k + 5, scale=0.5) * 2.0 ** 22)
+        for x0 in x0s:
             try:
                 z0, T, aff = affine_probe(lambda e: one_step(use_iface, "LinearRTO", target, x0, e)[0], nd)
             except Exception as e:
@@ -262,8 +281,14 @@ def eval_rto(cell):
         if not close(T @ T.T, cov_ref, 1e-7):
             res.fail("C06|%s|covariance|%s,lik=%s" % (comp, facet, lp), "linear part does not reproduce the posterior covariance", focus=focus,
                      impl=T @ T.T, ref=cov_ref)
-        if len(maps) > 1 and not (close(maps[1][0], z0, 1e-7) and close(maps[1][1], T, 1e-7)):
-            res.fail("C06|%s|depends-on-state|%s" % (comp, facet), "draw depends on the current state", focus=focus)
+        for i_st, (z0b, Tb, _) in enumerate(maps[1:]):
+            # the solver's stopping rule is relative to the initial normal residual: from a state of norm R the absolute
+            # accuracy of a converged solve is ~ tol * R * cond, so draws from the far state are compared at 1e3 * tol * R
+            tol_st = max(1e-7, 1e3 * TOL * float(np.linalg.norm(x0s[i_st + 1])))
+            if not (close(z0b, z0, tol_st, atol=tol_st) and close(Tb, T, tol_st, atol=tol_st)):
+                res.fail("C06|%s|depends-on-state|%s" % (comp, facet), "draw depends on the current state (offset %s from the origin, "
+                         "%s from another state)" % (z0[:4], z0b[:4]), focus=focus)
+                break
         # stacked operator: adjoint is the exact transpose of the forward action
         try:
             M = s0.M
